@@ -199,3 +199,73 @@ contract(B + ".__getitem__#slice", params=dict(self=BITS, s=TSlice), returns=Boo
                                    "0 <= start or step < 0", "start <= self.length", "-1 <= stop", "stop <= self.length",
                                    "start < self.length or step > 0"])},
          props=["C18"])
+
+cnt2, j2 = z3.Ints("cnt2 j2")
+lemma("pick_len", [v, n, p0, st, cnt], Len(pick(v, n, p0, st, cnt)) == z3.If(cnt <= 0, 0, cnt),
+      patterns=[pick(v, n, p0, st, cnt)], induct=("int", cnt), inst=[[v, n, p0, st, cnt - 1]])
+lemma("pick_nth", [v, n, p0, st, cnt, j2],
+      Imp(And(0 <= j2, j2 < cnt), pick(v, n, p0, st, cnt)[j2] == ((v / pow2(n - (p0 + j2 * st) - 1)) % 2 == 1)),
+      patterns=None, induct=("int", cnt), inst=[[v, n, p0, st, cnt - 1, j2]], uses=["pick_len"])
+
+contract(B + ".__iter__", params=dict(self=BITS), returns=BoolL,
+         ensures=["result == pick(self.value, self.length, 0, 1, self.length)", "len(result) == self.length"],
+         lemmas=["pick_len"],
+         loops={0: dict(hints=[("pick_nth", ["self.value", "self.length", "0", "1", "self.length", "it"])],
+                        invariant=["result == pick(self.value, self.length, 0, 1, it)", "n_iter == self.length"])},
+         props=["C18"])
+
+bitstr = specfn("bitstr", [TInt, TInt, TInt], TStr,
+                py=lambda v, L, k: "".join("1" if _bit_py(v, L, j) else "0" for j in range(max(k, 0))),
+                doc="the first k characters of the MSB-first binary rendering of (v, L)")
+bitstr.define = lambda v, L, k: z3.If(k <= 0, z3.StringVal(""),
+                                      z3.Concat(bitstr(v, L, k - 1),
+                                                z3.If((v / pow2(L - (k - 1) - 1)) % 2 == 1, z3.StringVal("1"), z3.StringVal("0"))))
+contract(B + ".__str__", params=dict(self=BITS), returns=TStr,
+         ensures=["result == bitstr(self.value, self.length, self.length)"],
+         lemmas=["pick_len"],
+         loops={0: dict(hints=[("pick_nth", ["self.value", "self.length", "0", "1", "self.length", "it"])],
+                        invariant=["s == bitstr(self.value, self.length, it)", "n_iter == self.length"])},
+         props=["C18"])
+
+# ---- toolkit/bits_utils.py ---------------------------------------------------------------------------------
+BUt = "toolkit/bits_utils.py:"
+PAIR = TTuple(BITS, BITS)
+HALF_NP = ["result[1].length == (xbits.length + 1) // 2",
+           "result[1].value == xbits.value % pow2((xbits.length + 1) // 2)",
+           "result[0].length == xbits.length - (xbits.length + 1) // 2",
+           "result[0].value == xbits.value // pow2((xbits.length + 1) // 2)",
+           "inv(result[0])", "inv(result[1])"]
+contract(BUt + "half_bits_not_padding#bitset", params=dict(xbits=BITS), returns=PAIR, ensures=HALF_NP, props=["C18", "C15"])
+contract(BUt + "half_bits#bitset", params=dict(xbits=BITS), returns=PAIR,
+         ensures=["result[1].length == (xbits.length + 1) // 2",
+                  "result[1].value == xbits.value % pow2((xbits.length + 1) // 2)",
+                  "result[0].length == (xbits.length + 1) // 2",
+                  "result[0].value == xbits.value // pow2((xbits.length + 1) // 2)",
+                  "inv(result[0])", "inv(result[1])"],
+         lemmas=["pow2_mono"], props=["C18"])
+INT_HALF = lambda pad: [
+    "result[1].length == (bitlen(xbits) + 1) // 2",
+    "result[1].value == xbits % pow2((bitlen(xbits) + 1) // 2)",
+    "result[0].length == " + ("(bitlen(xbits) + 1) // 2" if pad else "bitlen(xbits) - (bitlen(xbits) + 1) // 2"),
+    "result[0].value == xbits // pow2((bitlen(xbits) + 1) // 2)"]
+contract(BUt + "half_bits_not_padding#int", params=dict(xbits=TInt), returns=PAIR, requires=["xbits >= 0"],
+         ensures=INT_HALF(False), lemmas=["bitlen_bound"], props=["C18"])
+contract(BUt + "half_bits#int", params=dict(xbits=TInt), returns=PAIR, requires=["xbits >= 0"],
+         ensures=INT_HALF(True), lemmas=["bitlen_bound", "pow2_mono"], props=["C18"])
+
+# ---- relational facts of the property, as ghost client code verified against the contracts above --------------
+contract("ghost:concat_then_higher", params=dict(a=BITS, b=BITS), returns=BITS,
+         body="def concat_then_higher(a, b):\n    return (a + b).get_higher_bits(len(a))\n",
+         ensures=["result.value == a.value", "result.length == a.length"],
+         hints=[("concat_high", ["a.value", "b.value", "b.length"])], props=["C18"])
+contract("ghost:concat_then_lower", params=dict(a=BITS, b=BITS), returns=BITS,
+         body="def concat_then_lower(a, b):\n    return (a + b).get_lower_bits(len(b))\n",
+         ensures=["result.value == b.value", "result.length == b.length"],
+         hints=[("concat_low", ["a.value", "b.value", "b.length"])], props=["C18"])
+contract("ghost:halves_rejoin", params=dict(x=BITS), returns=BITS,
+         body="def halves_rejoin(x):\n    l, r = half_bits_not_padding(x)\n    return l + r\n",
+         ensures=["result.value == x.value", "result.length == x.length"], ghost_scope="toolkit/bits_utils.py",
+         lemmas=["div_mod_unique"],
+         hints=[("div_mod_unique", ["x.value", "pow2((x.length + 1) // 2)", "x.value // pow2((x.length + 1) // 2)",
+                                    "x.value % pow2((x.length + 1) // 2)"])],
+         props=["C18", "C15"])
